@@ -1009,36 +1009,47 @@ template <typename C, typename A, typename M, typename Mk>
 NOINL void two_arrays(Ctx& c, std::string const& s, M const& m1, Model const& mod1, M const& m2, Model const& mod2, Mk make_container)
 {
     c.extra = "state1: extents=" + show(mod1.e, mod1.R) + " strides=" + show(mod1.st, mod1.R) + " state2: extents=" + show(mod2.e, mod2.R) + " strides=" + show(mod2.st, mod2.R);
-    crumb_op(c, s, "mdarray(mapping,container&&)");
-    A a(m1, make_container(mod1.span()));
-    A b(m2, make_container(mod2.span()));
-    own(a, 1);
-    own(b, 2);
-    arr_state<C>(c, s, "mdarray(mapping,container&&)", a, mod1, 1, 201);
-    arr_state<C>(c, s, "mdarray(mapping,container&&)", b, mod2, 2, 202);
-    crumb_op(c, s, "swap(mdarray&,mdarray&)");
-    swap(a, b);
-    arr_state<C>(c, s, "swap(mdarray&,mdarray&)", a, mod2, 2, 203);
-    arr_state<C>(c, s, "swap(mdarray&,mdarray&)", b, mod1, 1, 204);
-    crumb_op(c, s, "operator=(mdarray const&)");
-    a = b; // a held state 2
-    arr_state<C>(c, s, "operator=(mdarray const&)", a, mod1, 1, 205);
-    arr_state<C>(c, s, "operator=(mdarray const&)", b, mod1, 1, 206);
-    expect_bool("operator=(mdarray const&):own-storage", mod1.span() == 0 || a.container_data() != b.container_data(), true);
+    // every operation starts from two freshly built objects (state 1 / state 2), so one defect does not cascade into the next check
+    auto fresh = [&](M const& m, Model const& mod, int owner) {
+        A o(m, make_container(mod.span()));
+        own(o, owner);
+        return o;
+    };
     {
-        A t(m2, make_container(mod2.span()));
-        own(t, 2);
+        crumb_op(c, s, "mdarray(mapping,container&&)");
+        A a = fresh(m1, mod1, 1), b = fresh(m2, mod2, 2);
+        arr_state<C>(c, s, "mdarray(mapping,container&&)", a, mod1, 1, 201);
+        arr_state<C>(c, s, "mdarray(mapping,container&&)", b, mod2, 2, 202);
+        crumb_op(c, s, "swap(mdarray&,mdarray&)");
+        swap(a, b);
+        arr_state<C>(c, s, "swap(mdarray&,mdarray&)", a, mod2, 2, 203);
+        arr_state<C>(c, s, "swap(mdarray&,mdarray&)", b, mod1, 1, 204);
+    }
+    {
+        A a = fresh(m2, mod2, 2), b = fresh(m1, mod1, 1);
+        crumb_op(c, s, "operator=(mdarray const&)");
+        a = b; // a held state 2
+        arr_state<C>(c, s, "operator=(mdarray const&)", a, mod1, 1, 205);
+        arr_state<C>(c, s, "operator=(mdarray const&)", b, mod1, 1, 206);
+        expect_bool("operator=(mdarray const&):own-storage", mod1.span() == 0 || a.container_data() != b.container_data(), true);
+    }
+    {
+        A a = fresh(m1, mod1, 1), b = fresh(m1, mod1, 1), t = fresh(m2, mod2, 2);
         crumb_op(c, s, "operator=(mdarray&&)");
         b = std::move(t); // b held state 1
         arr_state<C>(c, s, "operator=(mdarray&&)", b, mod2, 2, 207);
         arr_state<C>(c, s, "operator=(mdarray&&)", a, mod1, 1, 208);
     }
-    crumb_op(c, s, "mdarray(mdarray const&)");
-    A cc(b);
-    arr_state<C>(c, s, "mdarray(mdarray const&)", cc, mod2, 2, 209);
-    crumb_op(c, s, "mdarray(mdarray&&)");
-    A mc(std::move(cc));
-    arr_state<C>(c, s, "mdarray(mdarray&&)", mc, mod2, 2, 210);
+    {
+        A a = fresh(m1, mod1, 1), b = fresh(m2, mod2, 2);
+        crumb_op(c, s, "mdarray(mdarray const&)");
+        A cc(b);
+        arr_state<C>(c, s, "mdarray(mdarray const&)", cc, mod2, 2, 209);
+        arr_state<C>(c, s, "mdarray(mdarray const&)", a, mod1, 1, 211);
+        crumb_op(c, s, "mdarray(mdarray&&)");
+        A mc(std::move(cc));
+        arr_state<C>(c, s, "mdarray(mdarray&&)", mc, mod2, 2, 210);
+    }
     c.extra.clear();
 }
 
@@ -1099,6 +1110,13 @@ NOINL void two_views(Ctx& c, std::string const& s, M const& m1, Model const& mod
         x = MD(p1, m1);
         md_state<C>(c, s, "operator=(mdspan&&)", x, p1, b1.size(), mod1, 1, 308);
         if constexpr (requires { swap(x, y); }) {
+            MD x2(p1, m1), y2(p2, m2); // fresh pair
+            crumb_op(c, s, "swap(mdspan&,mdspan&)");
+            swap(x2, y2);
+            md_state<C>(c, s, "swap(mdspan&,mdspan&)", x2, p2, b2.size(), mod2, 2, 311);
+            md_state<C>(c, s, "swap(mdspan&,mdspan&)", y2, p1, b1.size(), mod1, 1, 312);
+            x = MD(p1, m1);
+            y = MD(p2, m2);
             crumb_op(c, s, "swap(mdspan&,mdspan&)");
             swap(x, y);
             md_state<C>(c, s, "swap(mdspan&,mdspan&)", x, p2, b2.size(), mod2, 2, 309);
